@@ -1,6 +1,6 @@
 (* C15/Proofs.v — lemmas about the epoch-clock model. *)
 From Coq Require Import List String Ascii Bool ZArith Lia Sorting.Sorted.
-From Exo Require Import Base.Store C15.Model.
+From Exo Require Import Base.Store Base.Util C15.Model.
 Import ListNotations.
 Local Open Scope Z_scope.
 Local Open Scope list_scope.
@@ -29,9 +29,6 @@ Proof.
   unfold ev_eqb. rewrite String.eqb_refl, Z.eqb_refl, Nat.eqb_refl.
   destruct (ev_k e); reflexivity.
 Qed.
-
-Lemma list_eqb_refl {A} (f : A -> A -> bool) l : (forall x, f x x = true) -> list_eqb f l l = true.
-Proof. intro H. induction l as [|a r IH]; simpl; [reflexivity|]. rewrite H, IH. reflexivity. Qed.
 
 (* ---------- one tick satisfies the property statement (the monitor's step_ok) ---------- *)
 Theorem tick_step_ok nsubs h t e :
